@@ -17,14 +17,15 @@ type c07Step struct {
 }
 
 type c07Case struct {
-	Steps      []c07Step `json:"steps"`
-	StartUp    bool      `json:"start_up"`    // endpoint listening before the destination starts
-	KeepSafeMs int       `json:"keepsafe_ms"` // 0 = the default 10 s
-	ConnBuf    int       `json:"connbuf"`
-	IOBuf      int       `json:"iobuf"`
-	SpoolBuf   int       `json:"spoolbuf"`
-	PaceUs     int       `json:"pace_us"` // pause after every line
-	FileBytes  int64     `json:"file_bytes"`
+	Steps        []c07Step `json:"steps"`
+	StartUp      bool      `json:"start_up"`    // endpoint listening before the destination starts
+	KeepSafeMs   int       `json:"keepsafe_ms"` // 0 = the default 10 s
+	ConnBuf      int       `json:"connbuf"`
+	IOBuf        int       `json:"iobuf"`
+	SpoolBuf     int       `json:"spoolbuf"`
+	PaceUs       int       `json:"pace_us"` // pause after every line
+	FileBytes    int64     `json:"file_bytes"`
+	SpoolSleepUs int       `json:"spool_sleep_us"` // 0 = 10 (the documented default is 500)
 }
 
 func runC07(raw json.RawMessage) (interface{}, error) {
@@ -52,9 +53,13 @@ func runC07(raw json.RawMessage) (interface{}, error) {
 			return nil, err
 		}
 	}
+	spoolSleep := c.SpoolSleepUs
+	if spoolSleep == 0 {
+		spoolSleep = 10
+	}
 	m, _ := matcher.New("", "", "", "", "", "")
 	d, err := dest.New(fresh("c07r"), m, ep.addr, dir, true, false, 5*time.Millisecond, 20*time.Millisecond, c.ConnBuf, c.IOBuf,
-		c.SpoolBuf, c.FileBytes, 100, 50*time.Millisecond, 10*time.Microsecond, 10*time.Microsecond)
+		c.SpoolBuf, c.FileBytes, 100, 50*time.Millisecond, time.Duration(spoolSleep)*time.Microsecond, 10*time.Microsecond)
 	if err != nil {
 		return nil, err
 	}
@@ -78,8 +83,12 @@ func runC07(raw json.RawMessage) (interface{}, error) {
 					maxIn = dt
 				}
 				sent++
-				if c.PaceUs > 0 {
+				if c.PaceUs >= 1000 {
 					time.Sleep(time.Duration(c.PaceUs) * time.Microsecond)
+				} else if c.PaceUs > 0 {
+					// time.Sleep cannot pace below a millisecond here: spin
+					for until := t0.Add(time.Duration(c.PaceUs) * time.Microsecond); time.Now().Before(until); {
+					}
 				}
 			}
 		case "down":
@@ -116,17 +125,19 @@ func runC07(raw json.RawMessage) (interface{}, error) {
 		defer ep.mu.Unlock()
 		return len(ep.seen)
 	}
-	last, lastChange := distinct(), time.Now()
-	deadline := time.Now().Add(12 * time.Second)
+	// (the interesting lines can arrive at the end of a long replay of lines the endpoint already has: watch the
+	// total number of lines received, duplicates included)
+	last, lastChange := ep.received(), time.Now()
+	deadline := time.Now().Add(20 * time.Second)
 	for time.Now().Before(deadline) {
 		time.Sleep(20 * time.Millisecond)
-		if n := distinct(); n != last {
+		if n := ep.received(); n != last {
 			last, lastChange = n, time.Now()
 		}
-		if last >= sent && d.VerifSpoolBacklog() == 0 {
+		if distinct() >= sent && d.VerifSpoolBacklog() == 0 {
 			break
 		}
-		if time.Since(lastChange) > 1500*time.Millisecond && d.VerifSpoolBacklog() == 0 {
+		if time.Since(lastChange) > 2*time.Second && d.VerifSpoolBacklog() == 0 {
 			break
 		}
 	}
